@@ -66,9 +66,28 @@ SETTERS = ['lp.Model.min', 'lp.Model.max', 'ro.Model.min', 'ro.Model.max', 'ro.M
            'ro.Model.maxmin', 'dro.Model.min', 'dro.Model.max', 'dro.Model.minsup', 'dro.Model.maxinf']
 
 
+IDOK = ('cl', frozenset({('#id-ok', True)}))     # clause form of 'an identity test was passed' (survives joins)
+_CUR_LOCALS = set()      # locals of the function under analysis that only ever hold a model (or None)
+
+
+def set_model_locals(fn_node):
+    vals = {}
+    for n in walk_no_nested(fn_node):
+        if isinstance(n, ast.Assign):
+            for t in n.targets:
+                if isinstance(t, ast.Name):
+                    vals.setdefault(t.id, []).append(n.value)
+    _CUR_LOCALS.clear()
+    for k, vs in vals.items():
+        if all((isinstance(v, ast.Attribute) and v.attr in MODEL_ATTRS) or
+               (isinstance(v, ast.Constant) and v.value is None) for v in vs) and \
+                any(isinstance(v, ast.Attribute) for v in vs):
+            _CUR_LOCALS.add(k)
+
+
 def is_model_expr(e):
     if isinstance(e, ast.Name):
-        return e.id == 'self' or e.id in MODEL_LOCALS
+        return e.id == 'self' or e.id in MODEL_LOCALS or e.id in _CUR_LOCALS
     if isinstance(e, ast.Attribute):
         return e.attr in MODEL_ATTRS
     return False
@@ -99,6 +118,24 @@ def known(test, truth):
             return out
         return []
     return [(test, truth)]
+
+
+def _identity_leaf(test, raising_when):
+    """does `test` contain an identity comparison whose *mismatch* makes the test more `raising_when`?
+    (polarity walk through and/or/not: a `!=` leaf in positive position or an `==` leaf in negative
+    position counts for True, the mirror image for False)"""
+    def walk(e, pos):
+        if isinstance(e, ast.UnaryOp) and isinstance(e.op, ast.Not):
+            return walk(e.operand, not pos)
+        if isinstance(e, ast.BoolOp):
+            return any(walk(v, pos) for v in e.values)
+        k = identity_compare(e)
+        if k == 'neq':
+            return pos is raising_when
+        if k == 'eq':
+            return pos is not raising_when
+        return False
+    return walk(test, True)
 
 
 def mismatch_disjuncts(test):
@@ -132,7 +169,7 @@ class _IdFlow(MustFlow):
         for leaf, tv in known(test, branch):
             k = identity_compare(leaf)
             if (k == 'neq' and not tv) or (k == 'eq' and tv):
-                state = state | {'id-checked'}
+                state = state | {'id-checked', IDOK}
             # any(x.model is not M for x in ITEMS) is false / all(x.model is M for x in ITEMS) is true:
             # every element of ITEMS has passed the identity test
             if isinstance(leaf, ast.Call) and isinstance(leaf.func, ast.Name) and len(leaf.args) == 1 and \
@@ -153,7 +190,7 @@ class _IdFlow(MustFlow):
                     # the iterable as written (a local name) identifies the validated collection
                     for r0 in ast.walk(raw):
                         if isinstance(r0, (ast.GeneratorExp, ast.ListComp)) and isinstance(r0.generators[0].iter, ast.Name):
-                            state = state | {('validated', r0.generators[0].iter.id)}
+                            state = state | {('validated', r0.generators[0].iter.id), IDOK}
         return state | {('cond', branch, ntext(raw))}
 
     def after_loop(self, loop, state):
@@ -165,17 +202,31 @@ class _IdFlow(MustFlow):
                 if isinstance(n, ast.If) and any(isinstance(s, ast.Raise) for s in n.body):
                     for leaf, tv in mismatch_disjuncts(n.test):
                         if any(isinstance(y, ast.Name) and y.id == x for y in ast.walk(leaf)):
-                            return state | {('validated', loop.iter.id)}
+                            return state | {('validated', loop.iter.id), IDOK}
         return state
 
     def visit(self, node, state):
         if self.sink_pred is not None:
             for n in ast.walk(node):
                 if self.sink_pred(n, node):
-                    ok = 'id-checked' in state
-                    if not ok:
-                        ok = any(isinstance(f, tuple) and f[0] == 'validated' for f in state)
-                    self.sinks.append((n, ok))
+                    self.sinks.append((n, guarded(state)))
+
+
+def _id_atom(text):
+    try:
+        e = ast.parse(text, mode='eval').body
+    except SyntaxError:
+        return False
+    return identity_compare(e) == 'eq'
+
+
+def guarded(state):
+    """on every path here a model-identity comparison has come out equal: the legacy facts, or a
+    known clause all of whose literals are positive identity comparisons (one of them held)"""
+    if 'id-checked' in state or any(isinstance(f, tuple) and f[0] == 'validated' for f in state):
+        return True
+    from rsx.flow import clauses_of
+    return any(all(pol and (a == '#id-ok' or _id_atom(a)) for a, pol in c) for c in clauses_of(state))
 
 
 def sink_predicate(kind):
@@ -217,6 +268,12 @@ def _rejects_multi(fi, test):
             txt = ntext(l)
             if '.size' in txt or 'np.prod(' in txt or 'len(' in txt:
                 return True
+            if isinstance(l, ast.Name):
+                # a local assigned per case:  size = obj.indices.size / size = obj.size
+                vals = [n.value for n in walk_no_nested(fi.node) if isinstance(n, ast.Assign)
+                        and any(isinstance(t_, ast.Name) and t_.id == l.id for t_ in n.targets)]
+                if vals and all('.size' in ntext(v) or 'np.prod(' in ntext(v) or 'len(' in ntext(v) for v in vals):
+                    return True
     return False
 
 
@@ -227,6 +284,7 @@ def run(repo):
     for fq, kind in SINK_FUNCS.items():
         fi = repo.func(fq)
         res.functions.add(fq)
+        set_model_locals(fi.node)
         fl = _IdFlow(sink_predicate(kind))
         fl.defs = single_defs(fi.node)
         fl.run(body_stmts(fi))
@@ -277,6 +335,7 @@ def run(repo):
             if not (t.startswith('isinstance(%s, ' % other) and
                     any(c in t for c in ('Affine', 'Vars', 'RoAffine'))):
                 continue
+            set_model_locals(fi.node)
             fl = _IdFlow()
             fl.defs = single_defs(fi.node)
             o = fl.walk(node.body, frozenset())
@@ -289,7 +348,7 @@ def run(repo):
                 v = nd.value if isinstance(nd, ast.Return) else None
                 delegated = isinstance(v, ast.Call) and isinstance(v.func, ast.Attribute) and \
                     v.func.attr in ('__add__', '__mul__', '__matmul__', '__radd__')
-                ok = 'id-checked' in st or delegated
+                ok = guarded(st) or delegated
                 n_checked += 1
                 what = ntext(nd)[:60] if kind == 'return' else kind
                 res.inst({'operator': fq, 'branch': t[:50], 'exit': what, 'guarded': ok,
@@ -305,11 +364,19 @@ def run(repo):
         fi = repo.func(fq)
         res.functions.add(fq)
         found = 0
+        set_model_locals(fi.node)
         for n in walk_no_nested(fi.node):
-            if isinstance(n, ast.If) and any(isinstance(s, ast.Raise) for s in n.body):
-                from .common import expand_locals
-                if mismatch_disjuncts(expand_locals(fi.node, n.test)):
-                    found += 1
+            if not isinstance(n, ast.If):
+                continue
+            from .common import expand_locals
+            t = expand_locals(fi.node, n.test)
+            body_raises = any(isinstance(s, ast.Raise) for s in n.body)
+            else_raises = any(isinstance(s, ast.Raise) for s in n.orelse)
+            # a mismatch of the two models pushes the test towards the raising side
+            if body_raises and _identity_leaf(t, True):
+                found += 1
+            elif else_raises and _identity_leaf(t, False):
+                found += 1
         ok = found > 0
         res.inst({'function': fq, 'raising_identity_tests': found}, ok)
         if not ok:
@@ -328,8 +395,8 @@ def run(repo):
 
             def visit(self, node, state):
                 if isinstance(node, ast.Assign) and any(is_self_attr(t, 'obj') for t in node.targets):
-                    self.stores.append(('cond', False, 'self.obj is not None') in state or
-                                       ('cond', True, 'self.obj is None') in state)
+                    from rsx.flow import holds
+                    self.stores.append(holds(state, 'self.obj is None'))
         fl = _Set()
         fl.run(body_stmts(fi))
         size_guard = any(isinstance(n, ast.If) and _rejects_multi(fi, n.test)
@@ -354,9 +421,9 @@ def run(repo):
         def visit(self, node, state):
             for n in ast.walk(node):
                 if isinstance(n, ast.Call) and ntext(n.func) == 'Ambiguity':
-                    self.ok.append(('cond', False, 'self.all_constr') in state or
-                                   ('cond', True, 'not self.all_constr') in state or
-                                   ('cond', False, 'len(self.all_constr) > 0') in state)
+                    from rsx.flow import holds
+                    self.ok.append(holds(state, 'self.all_constr', False) or
+                                   holds(state, 'len(self.all_constr) > 0', False))
     fl = _Amb()
     fl.run(body_stmts(amb))
     ok = bool(fl.ok) and all(fl.ok)
@@ -369,8 +436,18 @@ def run(repo):
     for ci in repo.all_classes():
         if ci.module in ('deco', 'cpt_solver_bkp'):
             continue
-        bad = [k for k, v in ci.class_attrs.items()
-               if not (isinstance(v, ast.Constant) or (isinstance(v, ast.UnaryOp) and isinstance(v.operand, ast.Constant)))]
+        def immutable(v):
+            if isinstance(v, ast.Constant) or (isinstance(v, ast.UnaryOp) and isinstance(v.operand, ast.Constant)):
+                return True
+            if isinstance(v, ast.Tuple):            # a tuple of constants / class names is immutable
+                return all(immutable(x) or isinstance(x, (ast.Name, ast.Attribute)) for x in v.elts)
+            if isinstance(v, ast.Name):             # an alias of a method or of another immutable name
+                return v.id in ci.methods or v.id in ci.class_attrs
+            if isinstance(v, ast.Call) and isinstance(v.func, ast.Name) and v.func.id in ('frozenset', 'property',
+                                                                                           'staticmethod', 'classmethod'):
+                return True
+            return False
+        bad = [k for k, v in ci.class_attrs.items() if not immutable(v)]
         res.inst({'class_body': ci.fq, 'attrs': sorted(ci.class_attrs), 'mutable': bad}, not bad)
         for k in bad:
             res.fail(Finding(RULE, ci.fq, 'class attribute ' + k,
